@@ -877,7 +877,7 @@ def mask_shift(rng):
             m = (1 << w) - 1
             style = rng.choice(["shr-and", "div-and", "and-shifted-mask", "write-mul", "write-shl", "shl-and", "sar-and",
                                 "nested-or", "and-and", "nested-subword", "nested-subword", "shr-and-positioned",
-                                "copy-chain", "copy-chain"])
+                                "copy-chain", "copy-chain", "self-rewrite", "self-rewrite"])
             feats.add(style)
             if k >= 256:
                 feats.add("shift>=256")
@@ -894,6 +894,37 @@ def mask_shift(rng):
                         a.emit(kk, "SHR")
                     a.emit(("push", (((1 << ww) - 1) << pos) & evm.M256, None), "AND")
                 a.emit(rng.choice([[0, "MSTORE"], [(s + 1) % 4, "SSTORE"]]))
+            elif style == "self-rewrite":
+                # the slot is rewritten from nothing but masked reads of itself (every packed span is an "unused"
+                # read), and the same slot is also used as a typed word somewhere
+                def rewrite():
+                    nparts = rng.randint(1, 3)
+                    pos = 0
+                    for pi in range(nparts):
+                        w = rng.choice([8, 16, 64, 160])
+                        if rng.random() < 0.3:
+                            pos = rng.choice([0, 8, 16, 96, 160])
+                        a.emit(sp, "SLOAD", ("push", (((1 << w) - 1) << pos) & evm.M256, None), "AND")
+                        pos += w
+                        if pi:
+                            a.emit("OR")
+                    a.emit(sp, "SSTORE")
+                use_first = rng.random() < 0.5
+                if not use_first:
+                    rewrite()
+                use = rng.choice(["BALANCE", "EXTCODESIZE", "EXTCODEHASH", "iszero", "signext", "call", "selector", "none"])
+                if use in ("BALANCE", "EXTCODESIZE", "EXTCODEHASH"):
+                    a.emit(sp, "SLOAD", use, (s + 1) % 4, "SSTORE")
+                elif use == "iszero":
+                    a.emit(sp, "SLOAD", "ISZERO", "ISZERO", (s + 1) % 4, "SSTORE")
+                elif use == "signext":
+                    a.emit(sp, "SLOAD", rng.choice([0, 3, 15]), "SIGNEXTEND", (s + 1) % 4, "SSTORE")
+                elif use == "call":
+                    a.emit(0, 0, 0, 0, sp, "SLOAD", "GAS", "STATICCALL", "POP")
+                elif use == "selector":
+                    a.emit(sp, "SLOAD", 0xe0, "SHR", ("push", 0xa9059cbb, 4), "EQ", "POP")
+                if use_first:
+                    rewrite()
             elif style == "copy-chain":
                 # a high part of slot A is copied to slot B, a high part of B to C, ... within one thread: the
                 # sub-word offsets accumulate along the chain (to 256 and beyond)
